@@ -359,7 +359,10 @@ pub mod public {
         /// a related WeakNode to be deallocated. If you wish to use the related node after
         /// (i.e. to invalidate it) then upgrade the WeakNode first.
         pub fn remove_dependency<D: Value>(&self, dep: Dependency<D>) {
-            let edge = dep.edge.upgrade().unwrap();
+            // a dependency "added" to an already invalidated node was never recorded
+            let Some(edge) = dep.edge.upgrade() else {
+                return;
+            };
             expert::remove_dependency(&*self.incr.node, &*edge);
         }
     }
